@@ -3,7 +3,7 @@
     Every theorem holds for EVERY normalisation function [unitv] (the model of [v / sqrt(v.v)]); where a
     theorem needs the normalisation to behave at a particular vector it says so ([unit_ok]).
     Model: Wrapper/Model.v; vocabulary: Wrapper/Spec.v. *)
-From Coq Require Import List Bool Arith ZArith QArith Qabs.
+From Coq Require Import List Bool Arith ZArith QArith Qabs Lia.
 From DV Require Import Common.Res Orient.Model Wrapper.Model Wrapper.Spec Wrapper.Corr
      Wrapper.ProofsC03 Wrapper.ProofsUnit.
 Import ListNotations.
@@ -75,10 +75,10 @@ Proof. exact step_test_reading. Qed.
 Definition exA (t0 t1 t2 : Q) : mat :=
   [[3 # 2; -4 # 1; 0; t0]; [2 # 1; 3 # 1; 0; t1]; [0; 0; 5 # 2; t2]; [0; 0; 0; 1]]%Q.
 (** three (1,2,2) images stepping along column 0 = (1.5, 2, 0) *)
-Definition ex_ims : list img :=
-  [mk_img [1; 2; 2] [1; 2; 3; 4]%Z (exA 10 (-8) 3) (Some 2);
-   mk_img [1; 2; 2] [11; 12; 13; 14]%Z (exA (23 # 2) (-6) 3) (Some 2);
-   mk_img [1; 2; 2] [21; 22; 23; 24]%Z (exA 13 (-4) 3) (Some 2)].
+Definition ex0 : img := mk_img [1; 2; 2] [1; 2; 3; 4]%Z (exA 10 (-8) 3) (Some 2).
+Definition ex1 : img := mk_img [1; 2; 2] [11; 12; 13; 14]%Z (exA (23 # 2) (-6) 3) (Some 2).
+Definition ex2 : img := mk_img [1; 2; 2] [21; 22; 23; 24]%Z (exA 13 (-4) 3) (Some 2).
+Definition ex_ims : list img := [ex0; ex1; ex2].
 
 Lemma ex_uniform (l : list img) sh :
   forallb (fun im => Seq.list_nat_eqb (ishape im) sh && wf_imgb im) l = true -> uniform l sh.
@@ -108,20 +108,18 @@ Proof. eexists. split; [vm_compute; reflexivity|]. repeat split. Qed.
 
 (** the same images in the order (0,2,1): the second step points backwards *)
 Example C03img_refuse_nonvacuous :
-  uniform [nth 0 ex_ims (hd_default ex_ims); nth 2 ex_ims (hd_default ex_ims); nth 1 ex_ims (hd_default ex_ims)] [1; 2; 2] /\
-  from_sequence_img unit_exact [nth 0 ex_ims (hd_default ex_ims); nth 2 ex_ims (hd_default ex_ims); nth 1 ex_ims (hd_default ex_ims)]
-                    (Some 0) = Err EValue.
+  uniform [ex0; ex2; ex1] [1; 2; 2] /\ from_sequence_img unit_exact [ex0; ex2; ex1] (Some 0) = Err EValue.
 Proof. split; [apply ex_uniform; reflexivity | vm_compute; reflexivity]. Qed.
 
 (** [unit_exact] is one of the functions the theorems quantify over, with [unit_ok] at the vectors of the example *)
 Example C03img_never_crashes_nonvacuous :
-  mergeable unit_exact 0 ex_ims (hd_default ex_ims) /\ unit_ok unit_exact (col3 (exA 10 (-8) 3) 0) /\
+  mergeable unit_exact 0 ex_ims ex0 /\ unit_ok unit_exact (col3 (exA 10 (-8) 3) 0) /\
   unit_ok unit_exact (vsub [23 # 2; -6 # 1; 3]%Q [10; -8 # 1; 3]%Q).
 Proof.
   split; [|split; apply unit_exact_ok; vm_compute; reflexivity].
   split.
-  - intros i Hi. cbn [length ex_ims] in Hi. destruct i as [|[|[|i]]]; try (exfalso; apply (Nat.lt_irrefl 3); eapply Nat.le_lt_trans; [|exact Hi]; repeat apply le_n_S; apply Nat.le_0_l); vm_compute; reflexivity.
-  - intros _ i Hi. cbn [length ex_ims] in Hi. destruct i as [|[|i]]; try (exfalso; apply (Nat.lt_irrefl 3); eapply Nat.le_lt_trans; [|exact Hi]; repeat apply le_n_S; apply Nat.le_0_l); vm_compute; reflexivity.
+  - intros i Hi. cbn [length ex_ims] in Hi. destruct i as [|[|[|i]]]; try lia; vm_compute; reflexivity.
+  - intros _ i Hi. cbn [length ex_ims] in Hi. destruct i as [|[|i]]; try lia; vm_compute; reflexivity.
 Qed.
 
 Example C03img_dim_argument_nonvacuous :
